@@ -243,16 +243,14 @@ def run(root, pid, tier, seed):
             if r[0] == "compile":
                 _, ci, err, spans = r
                 hit = False
-                for m in re.finditer(r"--> [^\n]*macros%s_%d\.rs:(\d+):" % (tag, ci), err):
-                    ln = int(m.group(1))
+                for ln, head, blk in E.error_locations(err, r"macros%s_%d\.rs" % (tag, ci)):
                     for (a, b, i) in spans:
                         if a <= ln <= b:
-                            first = err[max(0, err.rfind("error", 0, m.start())):m.start()].strip().splitlines()
-                            bad.setdefault(i, "does not compile: " + (first[0] if first else "error"))
+                            bad.setdefault(i, "does not compile: " + head)
                             hit = True
                     if not hit:
                         # a const item at top level
-                        mm = re.search(r"(?:const [CRST]|fn filled|fn boxed|Blk)_(\d+)", err[m.start():m.start() + 600])
+                        mm = re.search(r"(?:const [CRST]|fn filled|fn boxed|Blk)_(\d+)", blk[:1500])
                         if mm:
                             bad.setdefault(int(mm.group(1)), "const item does not compile")
                             hit = True
